@@ -586,17 +586,28 @@ def run(ctx):
     ch = ctx.cfg(hau)
     fh = ctx.facts(hau)
     sets = [n for n in ch.nodes if n.kind == "stmt" and isinstance(n.stmt, ast.Assign) and self_attr(n.stmt.targets[0]) == "_api_versions"]
-    ok = len(sets) == 2
+    # one store per outcome - two statements, or one statement whose value is a conditional expression (its arms are judged
+    # under the outcome of its test)
+    from ..cfg import cond_facts as _cf6
+    leaves6 = []
     for n in sets:
+        v_ = n.stmt.value
+        if isinstance(v_, ast.IfExp):
+            leaves6.append((v_.body, set(fh[n.id]) | set(_cf6(frozenset(fh[n.id]), v_.test, True))))
+            leaves6.append((v_.orelse, set(fh[n.id]) | set(_cf6(frozenset(fh[n.id]), v_.test, False))))
+        else:
+            leaves6.append((v_, set(fh[n.id])))
+    ok = len(leaves6) == 2
+    for v_, facts_ in leaves6:
         try:
-            cv = ast.literal_eval(n.stmt.value)
+            cv = ast.literal_eval(v_)
             is_c = True
         except (ValueError, TypeError, SyntaxError):
             cv, is_c = None, False
         if is_c:
-            ok = ok and cv is not None and type(cv) is type(S) and cv == S and any(t.endswith(".error_code != 0") and pol for t, pol in fh[n.id])
+            ok = ok and cv is not None and type(cv) is type(S) and cv == S and any(t.endswith(".error_code != 0") and pol for t, pol in facts_)
         else:
-            ok = ok and any(t.endswith(".error_code != 0") and not pol for t, pol in fh[n.id]) and norm(n.stmt.value).endswith(".api_versions")
+            ok = ok and any(t.endswith(".error_code != 0") and not pol for t, pol in facts_) and norm(v_).endswith(".api_versions")
     r.check(ok, "%s#table-or-zero" % hau.qname, "version table is not stored exactly on a successful discovery, the fallback state otherwise", where(hau, hau.node))
 
     # ---- R9 the correlation id a request travels under is the one its bytes were encoded with
